@@ -60,6 +60,8 @@ Bound(q, r) == Rect(q[1], Min(q[2], r[2]), Min(q[3], r[3]), Max(q[4], r[4]), Max
 (* ifref  x, y, z cells                    =IF(x>0, y, z)                  *)
 (* ucol   c       unbounded column         =SUM(C:C)                       *)
 (* urow   r       unbounded row            =SUM(2:2)                       *)
+(* mix    x range on one sheet, y a cell on the OTHER sheet (any coordinate,   *)
+(*        also one that lies inside x's rectangle)     =SUM(x)+y           *)
 (* cse    x       {=x*2} entered over the formula's own range; a member    *)
 (*                cell reads the array range, the array reads x            *)
 (* qual: how the sheet is written: "none" (Home only), "plain", "quoted"   *)
@@ -110,6 +112,9 @@ Descs(form) ==
             s \in Sheets, r \in 1..H, q \in {"none", "plain"}, a \in BOOLEAN}
     [] form = "cse" ->
          {D(form, Home, x, NoR, NoR, 0, 0, "none", FALSE) : x \in Ranges(Home)}
+    [] form = "mix" ->
+         {D(form, s, x, y, NoR, 0, 0, "plain", FALSE) :
+            s \in Sheets, x \in Ranges(Home), y \in Cells(Home)}
 
 \* descriptors whose qualifier is impossible for the sheet are dropped;
 \* operands are written on Home in Descs and moved to the target sheet here
@@ -120,7 +125,9 @@ WellFormed(d) ==
   /\ d.form = "index" => d.i <= d.x[5] - d.x[3] + 1 /\ d.j <= d.x[4] - d.x[2] + 1
   /\ d.form = "name2" => ~Overlap(d.x, d.y)
 
-Place(d) == [d EXCEPT !.x = OnSheet(d.x, d.sheet), !.y = OnSheet(d.y, d.sheet),
+OtherSheet(s) == CHOOSE t \in Sheets : t # s
+Place(d) == [d EXCEPT !.x = OnSheet(d.x, d.sheet),
+                      !.y = OnSheet(d.y, IF d.form = "mix" THEN OtherSheet(d.sheet) ELSE d.sheet),
                       !.z = OnSheet(d.z, d.sheet)]
 
 All == {Place(d) : d \in {e \in UNION {Descs(f) : f \in Forms} : WellFormed(e)}}
@@ -131,7 +138,7 @@ Clip(q) == Rect(q[1], q[2], q[3], Min(q[4], UsedCols), Min(q[5], UsedRows))
 
 Declared(d) ==
   CASE d.form \in {"cell", "range", "name1", "rowcol", "index", "cse"} -> {d.x}
-    [] d.form \in {"inter", "union", "name2"} -> {d.x, d.y}
+    [] d.form \in {"inter", "union", "name2", "mix"} -> {d.x, d.y}
     [] d.form = "multi" -> {Bound(Bound(d.x, d.y), d.z)}
     [] d.form = "ifref" -> {d.x, d.y, d.z}
     [] d.form \in {"ucol", "urow"} -> {d.x}
@@ -140,7 +147,7 @@ Declared(d) ==
 Influences(d) ==
   CASE d.form \in {"cell", "range", "name1", "cse"} -> {d.x}
     [] d.form = "inter" -> {Inter(d.x, d.y)}
-    [] d.form \in {"union", "name2"} -> {d.x, d.y}
+    [] d.form \in {"union", "name2", "mix"} -> {d.x, d.y}
     [] d.form = "multi" -> {Bound(Bound(d.x, d.y), d.z)}
     [] d.form = "rowcol" -> {}
     [] d.form = "index" -> {Cell(d.x[1], d.x[2] + d.j - 1, d.x[3] + d.i - 1)}
